@@ -169,6 +169,13 @@ func c13RuleMutations() []string {
 		"=''", "='", "='a", "=a'", "='''", "='a''b'", "=\\'", "='\\'", "='\\\\'", "='['", "='(?P<x'", "='a{2,1}'", "='\\'|x", "='a'|", "='a'||",
 		"='/'", "='/, ,/'", "='/, ,/,x'", "='/, ,/,x,y,z'", "=',,,,,,'", "=,", "=,,,", "='2006'", "='Jan'", "='_2'", "='.000'", "=" + strings.Repeat("-", 70000),
 		"|", "||", "|x", "=|", "=|x", "=1|", "=1||", "=\x00", "=\xff\xfe", "|\xff", "=%s%d", "=1~2|" + strings.Repeat("m", 70000)}
+	// every short argument again with a dangling escape character / a dangling quote at the very end
+	// of the rule text (the scanners look one byte ahead after a backslash)
+	for _, a := range append([]string{}, args...) {
+		if len(a) < 100 {
+			args = append(args, a+"\\", a+"'")
+		}
+	}
 	var out []string
 	for _, k := range allRuleKeys {
 		for _, a := range args {
